@@ -215,6 +215,11 @@ Definition send_header (ws : bool) (xmlns : bytes) (ver : N * N) (lang to from i
   ++ opt_attr (str "xml:lang") lang
   ++ (if ws then str "/>" else str ">").
 
+(* Send also records, in the output stream info, the element that opened the
+   stream (Close picks the matching closing element from it) and the id. *)
+Definition send_name (ws : bool) : bytes * bytes :=
+  if ws then (ns_ws, str "open") else (ns_stream, str "stream").
+
 (* ------------------------------------------------------------------ *)
 (* 6. Tokens (as produced by encoding/xml's Decoder.Token)             *)
 
@@ -893,10 +898,24 @@ Definition bind_server (s2s : bool) (request : item) (v : verdict) : bres * opti
                     flatten (NElem iqns (str "iq") (iq_attrs iq_result (b_from q) (b_to q) iqid)
                                    [NElem ns_bind (str "bind") [] (payload_nodes [] j)]))
                | VStanzaErr en =>
-                   (BReady, Some (b_resource q),
+                   (* the error is reported to the peer, then returned: no resource
+                      was bound, the session is not ready *)
+                   (BStanzaErr, Some (b_resource q),
                     flatten (NElem iqns (str "iq") (iq_attrs iq_error (b_from q) (b_to q) iqid) en))
                end
            end
+  end.
+
+(* Several bind negotiations on the receiving side performed with one and the
+   same StreamFeature value and no callback (sessions of a server that share a
+   feature list): (peer's address, request, this negotiation's attr.RandomID()).
+   Every negotiation draws its own random resource. *)
+Fixpoint bind_default_many (s2s : bool) (negs : list (jid * item * bytes)) : list (bres * list tok) :=
+  match negs with
+  | [] => []
+  | (remote, request, rid) :: r =>
+      let '(res, _, reply) := bind_server s2s request (default_verdict remote rid) in
+      (res, reply) :: bind_default_many s2s r
   end.
 
 End WithParse.
@@ -922,10 +941,12 @@ Definition opt_eqb {A} (eq : A -> A -> bool) (a b : option A) : bool :=
 Record scase := mkscase {
   s_ws : bool; s_xmlns : bytes; s_ver : N * N; s_lang : bytes; s_to : bytes; s_from : bytes; s_id : bytes;
   so_wire : bytes;
+  so_name : bytes * bytes;             (* Info.Name after Send *)
   so_parsed : option (tok * bool) }.   (* the start element encoding/xml reads, and whether an end follows at once *)
 
 Definition scase_ok (c : scase) : bool :=
   bytes_eqb (send_header (s_ws c) (s_xmlns c) (s_ver c) (s_lang c) (s_to c) (s_from c) (s_id c)) (so_wire c) &&
+  bytes_eqb (fst (send_name (s_ws c))) (fst (so_name c)) && bytes_eqb (snd (send_name (s_ws c))) (snd (so_name c)) &&
   opt_eqb (fun a b => tok_eqb (fst a) (fst b) && Bool.eqb (snd a) (snd b))
           (match read_start (so_wire c) with Some (t, sc, _) => Some (t, sc) | None => None end)
           (so_parsed c).
@@ -984,6 +1005,24 @@ Definition bscase_ok (c : bscase) : bool :=
   let '(res, cb, reply) := bind_server (lookup_parse (bs_tbl c)) (bs_s2s c) (bs_request c) (bs_verdict c) in
   bres_eqb res (bso_res c) && (if bs_custom c then opt_eqb bytes_eqb cb (bso_cb c) else true) &&
   list_eqb tok_eqb reply (bso_reply c).
+
+(* several default binds sharing one feature value; the resources drawn (the
+   observed ones) must be pairwise distinct *)
+Fixpoint nodupb (l : list bytes) : bool :=
+  match l with
+  | [] => true
+  | x :: r => negb (existsb (bytes_eqb x) r) && nodupb r
+  end.
+
+Record bmcase := mkbmcase {
+  bm_tbl : list (bytes * option jid);
+  bm_s2s : bool; bm_negs : list (jid * item * bytes);
+  bmo : list (bres * list tok) }.
+
+Definition bmcase_ok (c : bmcase) : bool :=
+  list_eqb (fun a b => bres_eqb (fst a) (fst b) && list_eqb tok_eqb (snd a) (snd b))
+           (bind_default_many (lookup_parse (bm_tbl c)) (bm_s2s c) (bm_negs c)) (bmo c) &&
+  nodupb (filter (fun r => negb (is_nil r)) (map snd (bm_negs c))).
 
 Fixpoint failing {A} (ok : A -> bool) (i : nat) (l : list A) : list nat :=
   match l with
